@@ -5,6 +5,7 @@ package secretstore
 import (
 	"context"
 	"fmt"
+	"os"
 	"sort"
 	"strings"
 	"testing"
@@ -272,4 +273,113 @@ func TestVerifC09(t *testing.T) {
 		add(c09Scenario{Kind: "account", Senders: 3, Msgs: 1, Groups: 1, Side: "first-use"})
 	}
 	vsync.ExploreScenarios(rep, "seal", scs, bound, 3000, budget)
+	if sh := os.Getenv("VERIF_SHARD"); (sh == "" || strings.HasPrefix(sh, "0/")) && os.Getenv("VERIF_REPLAY") == "" && os.Getenv("VERIF_RACE_PASS") == "" {
+		c09Faults(rep, seed)
+	}
+}
+
+// c09Faults: one transient storage fault during a send, then two more sends (no scheduler: sequential). For every
+// datastore operation SealEnvelope performs, that one operation fails. The envelopes the device hands out, before,
+// during and after the fault, must still carry distinct gap-free counters, the stored counter must not go back, and
+// every envelope handed out must open at a receiver.
+func c09Faults(rep *vrep.Report, seed int64) {
+	ctx := context.Background()
+	for _, batched := range []bool{false, true} {
+		for _, kind := range []string{"multimember", "contact", "account"} {
+			S := newParty(seed, "A", "1", 2, 2, batched)
+			gs := c09Groups(seed, c09Scenario{Kind: kind, Groups: 1}, S)
+			g := gs[0]
+			R := newParty(seed, map[string]string{"account": "A", "contact": "B", "multimember": "B"}[kind], "r", 16, 2, false)
+			ann := S.announce(g, R.md(g).Member())
+			first := S.seal(g, []byte("m1"))
+			n := 0
+			dry := S.cloneParty()
+			dry.ds.fail = func(op, key string) error { n++; return nil }
+			dry.seal(g, []byte("x"))
+			for i := 0; i < n; i++ {
+				P := S.cloneParty()
+				cnt := 0
+				var fop string
+				var written []uint64
+				P.ds.onPut = func(key string, val []byte) {
+					if strings.HasPrefix(key, "/"+dsNamespaceChainKeyForDeviceOnGroup+"/") {
+						ck := &protocoltypes.DeviceChainKey{}
+						if proto.Unmarshal(val, ck) == nil {
+							written = append(written, ck.Counter)
+						}
+					}
+				}
+				P.ds.fail = func(op, key string) error {
+					cnt++
+					if cnt-1 == i {
+						fop = op + " " + key
+						return fmt.Errorf("injected: database is locked")
+					}
+					return nil
+				}
+				envs := [][]byte{first}
+				msg, _ := protoMarshalEncrypted([]byte("during-fault"))
+				env, err := P.st.SealEnvelope(ctx, g, msg)
+				P.ds.fail = nil
+				if err == nil {
+					envs = append(envs, env)
+				}
+				var sealErrs []string
+				for j := 0; j < 2; j++ {
+					m2, _ := protoMarshalEncrypted([]byte(fmt.Sprintf("after-%d", j)))
+					e2, err2 := P.st.SealEnvelope(ctx, g, m2)
+					if err2 != nil {
+						sealErrs = append(sealErrs, err2.Error())
+						continue
+					}
+					envs = append(envs, e2)
+				}
+				rep.AddTransitions(1)
+				c := map[string]interface{}{"group": kind, "batched": batched, "fault_at": i, "op": fop}
+				where := fmt.Sprintf("%s group (batched=%v), datastore operation %d of %d of SealEnvelope (%s) fails once", kind, batched, i, n, fop)
+				if len(sealErrs) > 0 {
+					rep.Violation("C09/send-fails-after-storage-fault", where+": later sends fail although the fault has gone: "+strings.Join(sealErrs, "; "), c)
+					continue
+				}
+				var ctrs []uint64
+				for _, e := range envs {
+					_, h, herr := P.st.OpenEnvelopeHeaders(e, g)
+					must(herr)
+					ctrs = append(ctrs, h.Counter)
+				}
+				cls := "ok"
+				for x, ctr := range ctrs {
+					if ctr != uint64(x+1) {
+						cls = "counters-not-gap-free"
+					}
+					for _, other := range ctrs[:x] {
+						if other == ctr {
+							cls = "counter-reused"
+						}
+					}
+				}
+				for x := 1; x < len(written); x++ {
+					if written[x] < written[x-1] {
+						cls = "chain-counter-decreased"
+					}
+				}
+				if cls == "ok" {
+					Rc := R.cloneParty()
+					must(Rc.st.RegisterChainKey(ctx, g, S.md(g).Device(), ann))
+					for x, e := range envs {
+						if r := Rc.open(g, e); !r.ok {
+							cls = "envelope-does-not-open"
+							where += fmt.Sprintf("; envelope with counter %d: %s", ctrs[x], r.err)
+							break
+						}
+					}
+				}
+				rep.Eval(fmt.Sprintf("fault/%s/%s/faulted-send-ok=%v/%s", kind, strings.SplitN(fop, " ", 2)[0], err == nil, cls))
+				if cls != "ok" {
+					rep.Violation("C09/"+cls+"-after-storage-fault", fmt.Sprintf("%s: the envelopes handed out carry counters %v, chain-key counters written %v", where, ctrs, written), c)
+				}
+			}
+			rep.Sample(map[string]interface{}{"part": "one storage fault during a send", "group": kind, "batched": batched, "datastore_operations": n})
+		}
+	}
 }
